@@ -18,7 +18,7 @@ def reset():
 
 # name -> ({check: expected to report}, [(file, old, new)])
 MUT = {
-    'F1_hidden_query_not_canonical': ({'C05': True, 'C06': True}, [(FLEX, """                Size::NONE,
+    'F1_hidden_query_not_canonical': ({'C05': True, 'C06': True, 'C07': True}, [(FLEX, """                Size::NONE,
                 Size::NONE,
                 Size::MAX_CONTENT,
                 SizingMode::InherentSize,
@@ -31,17 +31,17 @@ MUT = {
                 Line::FALSE,
             );
             // Set the order after the hidden layout""")]),
-    'F2_flex_items_include_display_none_children': ({'C05': True, 'C06': True}, [(FLEX, """        .filter(|(_, _, style)| style.position() != Position::Absolute)
+    'F2_flex_items_include_display_none_children': ({'C05': True, 'C06': True, 'C07': True}, [(FLEX, """        .filter(|(_, _, style)| style.position() != Position::Absolute)
         .filter(|(_, _, style)| style.box_generation_mode() != BoxGenerationMode::None)
 """, """        .filter(|(_, _, style)| style.position() != Position::Absolute)
 """)]),
-    'F3_abs_pass_also_visits_hidden_absolute_children': ({'C05': True, 'C06': True}, [(FLEX, """        if child_style.box_generation_mode() == BoxGenerationMode::None || child_style.position() != Position::Absolute
+    'F3_abs_pass_also_visits_hidden_absolute_children': ({'C05': True, 'C06': True, 'C07': True}, [(FLEX, """        if child_style.box_generation_mode() == BoxGenerationMode::None || child_style.position() != Position::Absolute
         {
             continue;
         }""", """        if child_style.position() != Position::Absolute {
             continue;
         }""")]),
-    'F4_baselines_computed_after_the_compute_size_return': ({'C05': True, 'C06': True}, [
+    'F4_baselines_computed_after_the_compute_size_return': ({'C05': True, 'C06': True, 'C07': True}, [
         (FLEX, """    debug_log!("calculate_children_base_lines");
     calculate_children_base_lines(tree, known_dimensions, available_space, &mut flex_lines, &constants);
 """, """    debug_log!("calculate_children_base_lines");
@@ -49,31 +49,25 @@ MUT = {
         calculate_children_base_lines(tree, known_dimensions, available_space, &mut flex_lines, &constants);
     }
 """)]),
-    'F5_flex_basis_not_floored_by_padding_border': ({'C05': True, 'C06': True}, [(FLEX, """        child.flex_basis = child.flex_basis.max(padding_border_sum);
+    # payload only: C05 / C06 stay silent (their theorems use no arithmetic fact), C07 owns the arithmetic
+    'F5_flex_basis_not_floored_by_padding_border': ({'C05': False, 'C06': False, 'C07': True}, [(FLEX, """        child.flex_basis = child.flex_basis.max(padding_border_sum);
 """, """        let _ = padding_border_sum;
 """)]),
-    'F6_final_pass_walks_lines_forward_under_wrap_reverse': ({'C05': True, 'C06': True}, [(FLEX, """    if constants.is_wrap_reverse {
+    'F6_final_pass_walks_lines_forward_under_wrap_reverse': ({'C05': True, 'C06': True, 'C07': True}, [(FLEX, """    if constants.is_wrap_reverse {
         for line in flex_lines.iter_mut().rev() {
             calculate_layout_line(""", """    if false {
         for line in flex_lines.iter_mut().rev() {
             calculate_layout_line(""")]),
-    'F7_abs_child_query_sees_item_count': ({'C05': True, 'C06': True}, [(FLEX, """            constants.node_inner_size,
+    'F7_abs_child_query_sees_item_count': ({'C05': False, 'C06': False, 'C07': True}, [(FLEX, """            constants.node_inner_size,
             Size {
                 width: AvailableSpace::Definite(container_width.maybe_clamp(min_size.width, max_size.width)),""", """            constants.node_inner_size,
             Size {
                 width: AvailableSpace::Definite(container_width.maybe_clamp(min_size.width, max_size.width) + order as f32),""")]),
     # harmless rewrites: must stay silent
-    'H1_harmless': ({'C05': False, 'C06': False}, [
-        (FLEX, """    let len = tree.child_count(node);
-    for order in 0..len {
-        let child = tree.get_child_id(node, order);
-        if tree.get_flexbox_child_style(child).box_generation_mode() == BoxGenerationMode::None {""", """    let len = tree.child_count(node);
-    let mut order = 0;
-    while order < len {
-        let child = tree.get_child_id(node, order);
-        order += 1;
-        let order = order - 1;
-        if matches!(tree.get_flexbox_child_style(child).box_generation_mode(), BoxGenerationMode::None) {"""),
+    'H1_harmless': ({'C05': False, 'C06': False, 'C07': False}, [
+        (FLEX, """        if tree.get_flexbox_child_style(child).box_generation_mode() == BoxGenerationMode::None {
+            tree.perform_child_layout(""", """        if matches!(tree.get_flexbox_child_style(child).box_generation_mode(), BoxGenerationMode::None) {
+            tree.perform_child_layout("""),
         (FLEX, """        let padding_border_sum = (child.padding + child.border).cross_axis_sum(constants.dir);
 
         let child_known_main = constants.container_size.main(constants.dir).into();
